@@ -83,6 +83,19 @@ pub open spec fn data_lins<A: Alphabet, C: PositiveLength>(d: SamplerData<A, C>)
     Seq::new(d.sequences.v@.len(), |z: int| d.sequences.v@[z].linear())
 }
 
+/// what `Sampler::_new` needs from the data set (SamplerData::new) and the width: the never-changing half of the invariant
+pub open spec fn data_ok_w<A: Alphabet, C: PositiveLength>(d: SamplerData<A, C>, width: usize) -> bool {
+    let n = d.sequences.v@.len() as int;
+    let lins = data_lins(d);
+    &&& d.counts@.len() == n && n <= u32::MAX      // a u32 cell counts at most 2^32-1 sequences (machine arithmetic)
+    &&& forall|z: int| 0 <= z < n ==> (#[trigger] d.sequences.v@[z]).geom_ok() && d.sequences.v@[z].length >= width
+            && d.sequences.v@[z].wrap >= width             // checked by Sampler::_new (it panics otherwise)
+            && d.sequences.v@[z].length < usize::MAX       // A-MEM: one byte per symbol, allocations are < isize::MAX
+    &&& forall|z: int, k: int| 0 <= z < n && 0 <= k < A::K::USIZE ==> (#[trigger] d.counts@[z]@[k]) == cnt(lins[z], lins[z].len() as int, k)
+    // A-MEM: the data set fits in memory, so per-symbol totals fit usize
+    &&& forall|k: int| 0 <= k < A::K::USIZE ==> #[trigger] tcnt(lins, n, k) <= usize::MAX
+}
+
 impl BitVec {
     pub open spec fn wf(&self) -> bool { self.data@.len() == self.len && self.count == acount(self.data@, self.len as int) }
 }
@@ -101,21 +114,14 @@ impl<'a, A: Alphabet, C: PositiveLength> Sampler<'a, A, C> {
     pub open spec fn align(&self) -> Align { Align { active: self.active.data@, starts: self.starts@ } }
 
     /// what never changes during a run: the data set and its cached per-sequence symbol counts
-    pub open spec fn data_ok(&self) -> bool {
-        &&& self.data.counts@.len() == self.n() && self.n() <= u32::MAX      // a u32 cell counts at most 2^32-1 sequences (machine arithmetic)
-        &&& forall|z: int| 0 <= z < self.n() ==> (#[trigger] self.data.sequences.v@[z]).geom_ok() && self.data.sequences.v@[z].length >= self.width
-        &&& forall|z: int, k: int| 0 <= z < self.n() && 0 <= k < A::K::USIZE ==>
-                (#[trigger] self.data.counts@[z]@[k]) == cnt(self.lins()[z], self.lins()[z].len() as int, k)
-        // A-MEM: the data set fits in memory, so per-symbol totals fit usize
-        &&& forall|k: int| 0 <= k < A::K::USIZE ==> #[trigger] tcnt(self.lins(), self.n(), k) <= usize::MAX
-    }
+    pub open spec fn data_ok(&self) -> bool { data_ok_w(*self.data, self.width) }
     /// C16: "the reported motif count matrix equals the counts of the windows ..., the reported background equals the symbol
     /// counts outside their windows, every start leaves the window inside its sequence"
     pub open spec fn inv(&self) -> bool {
         &&& self.data_ok()
         &&& self.starts@.len() == self.n() && self.active.wf() && self.active.len == self.n()
         &&& forall|z: int| 0 <= z < self.n() ==> (#[trigger] self.starts@[z]) + self.width <= self.data.sequences.v@[z].length
-        &&& self.motif.wf() && self.motif@.len() == self.width
+        &&& self.motif.wf() && self.motif@.len() == self.width && self.scores.data.wf()
         &&& forall|i: int, k: int| 0 <= i < self.width && 0 <= k < A::K::USIZE ==>
                 (#[trigger] self.motif@[i][k]) as int == mcnt(self.lins(), self.align(), self.n(), i, k)
         &&& forall|k: int| 0 <= k < A::K::USIZE ==>
